@@ -1,13 +1,15 @@
 PROPERTY = "C08"
 ENCODED = ["linux::maps_reader::MappingInfo::{is_interesting,is_contained_in,get_mapping_effective_path_name_and_version,so_version}", "linux::sections::mappings::{write,fill_raw_module}",
-           "PtraceDumper::{from_process_memory_for_index,from_process_memory_for_mapping}"]
+           "PtraceDumper::{from_process_memory_for_index,from_process_memory_for_mapping,enumerate_mappings}", "maps_reader::SoVersion::parse (concrete names)"]
 BOUNDS = {"predicates": "fully symbolic mapping (start k<<12, size, offset, permissions, named or not) against 2 symbolic caller mappings",
           "fill_raw_module": "identifier of 8 / 20 symbolic bytes, symbolic base and size, file name /a/b.so.1.2, SONAME c.so; replace-basename and append (executable, offset != 0) cases",
-          "mappings::write": "3 target mappings (listed / unnamed / all-zero id) + 1 caller mapping; 1 target mapping inside a caller mapping; symbolic base addresses and ids"}
-OUTSIDE = ["'the module containing the entry point is first': the swap is inline in enumerate_mappings after File::open + MemoryMaps::from_read on /proc/<pid>/maps and cannot be reached without I/O - not decided",
+          "mappings::write": "one decision per harness: 1 target mapping at a symbolic address (unnamed / all-zero id / id + SONAME) with or without 1 caller-supplied mapping at another symbolic address; 1 target mapping inside a caller mapping (equal end addresses); ids symbolic. Two listed modules in one run (order) only in the thorough tier",
+          "enumerate_mappings": "3 derived mappings at symbolic ascending disjoint addresses (sizes 4 KiB-1 MiB, gaps <= 64 KiB), AT_ENTRY fully symbolic (including 0 = unknown and addresses in no mapping)",
+          "SoVersion::parse": "3 concrete names with .so.N suffixes (see C02)"}
+OUTSIDE = ["parsing of /proc/<pid>/maps (procfs-core) and the aggregation feeding enumerate_mappings (C13): scripted there",
            "agreement of the build id with an independent ELF reader on real files (extraction is C14; here the readers are scripted)", "merged extents (C13)", "deleted binaries, names with spaces / non-ASCII"]
 ASSUMPTIONS = ["<BuildId as ReadFromModule>::read_from_module and <SoName as ...>::read_from_module replaced by scripted readers (error / symbolic 8-byte id / all-zero id; SONAME or none)",
-               "in the mappings::write harnesses the private fill_raw_module is replaced by a logger (its own behaviour is the c08_raw_module_* harnesses, thorough tier)", "std::path::Path::exists stubbed true; std::fs::File::open stubbed (asserts the path is not under /dev, returns NotFound)", "std::fmt::format stubbed"]
+               "in the mappings::write harnesses the private fill_raw_module is replaced by a logger (its own behaviour is the c08_raw_module_* harnesses, thorough tier)", "std::path::Path::exists stubbed true; std::fs::File::open stubbed (asserts the path is not under /dev, returns NotFound)", "std::fmt::format stubbed", "c08_entry_point_module_first: File::open returns a dummy handle, BufRead::read_line reports EOF (the real MemoryMaps::from_read then yields an empty list), OwnedFd::drop is a no-op, MappingInfo::aggregate returns the scripted mappings", "Vec::resize memset model"]
 def M(n, d, tier="quick", **kw): return H("c08_modules::" + n, desc=d, tier=tier, loops={"extend_with": 60}, timeout=kw.pop("timeout",1500), **kw)
 HARNESSES = [
     M("c08_write_unnamed_not_listed", "mappings::write: an unnamed mapping is not listed"), M("c08_write_zero_id_not_listed", "an all-zero build id is not listed"),
